@@ -297,18 +297,28 @@ def compare_model_impl(r):
     return None
 
 
+def noninterf_queries(cases):
+    """cases: list of (nodes, [task...]) -> list of bool: does the FIRST pass over the tasks meet the hypothesis
+    of the sequence theorem (Sequences.second_pass_is_noop / SeqSpec.noninterf_b)?"""
+    tm = C.probe(UMASK)["tmpmode"]
+    lines = [sx(["noninterf", ["env", UMASK, tm], ["world", ROOTNODE] + [node_sx(n) for n in nodes], ["tasks"] + [task_sx(t) for t in tasks]])
+             for nodes, tasks in cases]
+    return [o.strip() == "t" for o in C.run_oracle(lines)]
+
+
 def declared_queries(results):
     """ask the Coq spec whether the declared state of each (single-task) case holds in the
     IMPLEMENTATION's final state, and which known classes the case is in"""
     lines = []
+    tm = C.probe(UMASK)["tmpmode"]
     for r in results:
         io = r["impl"]
         before = world_sx_from_impl(io["first"])
         after = world_sx_from_impl(io["final"])
-        lines.append(sx(["declared", task_sx(r["tasks"][0]), ["world"] + after, ["before"] + before]))
+        lines.append(sx(["declared", ["env", UMASK, tm], task_sx(r["tasks"][0]), ["world"] + after, ["before"] + before]))
     outs = C.run_oracle(lines)
     res = []
     for o in outs:
         e = parse_sx(o)
-        res.append(dict(declared=e[0] == "t", k8=e[1] == "t", k9a=e[2] == "t", k9b=e[3] == "t"))
+        res.append(dict(declared=e[0] == "t", k8=e[1] == "t", k9a=e[2] == "t", k9b=e[3] == "t", tmp_like_create=e[4] == "t"))
     return res
